@@ -21,6 +21,7 @@ RULE = ('Hypothesis generates tables with 1..8 strictly increasing apertures (lo
         'length unit, as quantities or bare AU numbers. Non-trivial = >= 2 tabulated apertures and a request strictly '
         'between knots or beyond the table; distinct = distinct canonical JSON.')
 RULE += (' ' + 'Also: requests 3e-5..1e-8 (relative) away from a tabulated radius, a second call after an in-place edit of the table.')
+RULE += (' ' + 'Aperture tables stored ascending / descending / rotated; Quantity requests to SED.interpolate in AU / pc / cm.')
 ASSUMPTIONS = [
     'tolerance 1e-12 relative in the table unit, 1e-9 when the request is converted between units (continuous function)',
     'interpolate_variable deliberately uses 0.999 x the largest aperture for requests beyond the table: any value between '
